@@ -467,9 +467,21 @@ fn recover_cycle<T>(
     cycle: &[String],
     module: &String,
 ) -> StdResult<T, Error> {
-    let mut cycle: Vec<_> = cycle
+    Err(macros::Error::new(crate::import::Error::CyclicDependency(
+        module.to_string(),
+        cycle_modules(cycle),
+    ))
+    .into())
+}
+
+/// The modules on a dependency cycle, in import order.
+///
+/// `import(m)` is only part of the reported cycle when it is executed; when a memoized `import(m)`
+/// is merely re-validated in a new revision only `global_inner(m)` is, so both are considered.
+fn cycle_modules(cycle: &[String]) -> Vec<String> {
+    let mut modules: Vec<_> = cycle
         .iter()
-        .filter(|k| k.starts_with("import("))
+        .filter(|k| k.starts_with("import(") || k.starts_with("global_inner("))
         .map(|k| {
             k.trim_matches(|c: char| c != '"')
                 .trim_matches('"')
@@ -477,12 +489,12 @@ fn recover_cycle<T>(
                 .to_string()
         })
         .collect();
-    cycle.pop();
-    Err(macros::Error::new(crate::import::Error::CyclicDependency(
-        module.to_string(),
-        cycle,
-    ))
-    .into())
+    modules.dedup();
+    // The query that closes the cycle is reported both first and last
+    if modules.len() > 1 && modules.first() == modules.last() {
+        modules.pop();
+    }
+    modules
 }
 
 fn recover_cycle_salvage<T>(
@@ -490,21 +502,10 @@ fn recover_cycle_salvage<T>(
     cycle: &[String],
     module: &String,
 ) -> SalvageResult<T, Error> {
-    let mut cycle: Vec<_> = cycle
-        .iter()
-        .filter(|k| k.starts_with("import("))
-        .map(|k| {
-            k.trim_matches(|c: char| c != '"')
-                .trim_matches('"')
-                .trim_start_matches('@')
-                .to_string()
-        })
-        .collect();
-    cycle.pop();
     Err(
         Error::from(macros::Error::new(crate::import::Error::CyclicDependency(
             module.to_string(),
-            cycle,
+            cycle_modules(cycle),
         )))
         .into(),
     )
